@@ -44,8 +44,8 @@ Theorem C02_typed_rt_type : forall v t, pv_typedb v t = true -> rt_type v = t.
 Proof. exact typed_rt_type. Qed.
 Print Assumptions C02_typed_rt_type.
 
-(* literals (without sets/maps: [no_coll]): PUSH of a well-typed literal produces a value of exactly that type that erases to the literal *)
-Theorem C02_push_literal : forall d t, data_has_type t d = true -> no_coll t = true ->
+(* literals (without sets/maps: [has_coll t = false]): PUSH of a well-typed literal produces a value of exactly that type that erases to the literal *)
+Theorem C02_push_literal : forall d t, data_has_type t d = true -> has_coll t = false ->
   exists v, py_of_data t d = Some v /\ pv_typedb v t = true /\ erase v = value_of_data d.
 Proof. exact py_of_data_typed. Qed.
 Print Assumptions C02_push_literal.
